@@ -931,8 +931,8 @@ pub fn main_for(property: &str, which: &'static str) {
         (_, true) => 800,
     };
     {
-        let mut r = Runner { rep: &mut rep, drv: &mut drv, which, cap, shrink_budget: 1200, max_shrinks: if args.thorough() || search { 400 } else { 40 }, shrinks_done: 0,
-            per_class: Default::default(), max_per_class: if args.thorough() || search { 4 } else { 2 } };
+        let mut r = Runner { rep: &mut rep, drv: &mut drv, which, cap, shrink_budget: 1200, max_shrinks: if args.thorough() || search { 400 } else { 24 }, shrinks_done: 0,
+            per_class: Default::default(), max_per_class: if args.thorough() || search { 4 } else { 1 } };
         if let Some(path) = &args.replay {
             let v: Value = serde_json::from_str(&std::fs::read_to_string(path).expect("replay file")).expect("replay json");
             let case = Case::from_json(&v["case"]);
